@@ -22,6 +22,9 @@ CLAIMED = {
     "C20": ("reference-parser differential over a generated spec grammar; duplicate-key generator; model-based histories over a real Group",
             "Generated-input search: generated key/value lists are rendered to spec text and parsed by XSpec and by a 20-line reference parser (attributes, env mapping, None for absent names, str round-trip, equality/hash by text, ValueError for any repeated key); generated histories of makegateway(auto/explicit colliding ids)/exit/terminate on a real group are checked against a list model after every step.",
             "Sampling. The reference parser is the specification of the syntax. Concurrent allocate_id schedules are part of the scheduler-based checks (added with engine E3).", "3/C20"),
+    "C09": ("schedule exploration on a deterministic-scheduler ExecModel (generated dense schedules + bounded line-level preemption; exhaustive single line-preemption of small scenarios); generated pool scenarios with a counting oracle",
+            "Generated pool scenarios (spawners, tasks that return/raise/block, racing trigger_shutdown/terminate, waitall and timed get callers, integrated primary thread, both thread backends) run on the real WorkerPool with every lock/event/queue/thread operation as a generated scheduling point and optional preemption at source lines; the oracle counts executions per accepted task, compares reply values and exception identity, checks waitall/terminate truthfulness against the set of tasks accepted before the call and treats a decided 'blocks forever' as a violation. Small scenarios get every single line-preemption enumerated. remote_exec followed by exit() is checked on an in-process gateway pair.",
+            "Sampling of schedules except the exhaustive single-preemption slices. The scheduler serialises real threads at real operations (legal CPython executions only); primitives are differentially self-tested each run; virtual time.", "3/C09"),
 }
 
 NOT_APPLICABLE = {}
